@@ -46,8 +46,8 @@ CHECKS = {
  "C05": dict(
     text="Proof: T2 (C05_step: add_record keeps the invariant WF = one owner per prefix + validated records + all indexes "
          "mirror the records, for every flag combination and every case-folding function), lifted by induction to every "
-         "finite history (C05_histories), with C05_reject (ValueError, exactly when one match without merge or several "
-         "matches), C05_shape / C05_resolves (append unchanged or merge keeping canonical prefix, URI prefix and pattern), "
+         "finite history (C05_histories), with C05_reject / C05_reject_iff (ValueError, exactly when one match without merge or several "
+         "matches; the same rule is evaluated by the Lean checker on every add of the implementation), C05_shape / C05_resolves (append unchanged or merge keeping canonical prefix, URI prefix and pattern), "
          "and C05_fresh / C05_histories_fresh (answers equal those of a converter freshly built from the current records, "
          "via T0 and permutation invariance of the specification), C05_lookup_structures (after any history prefix_map, synonym_to_prefix, reverse_prefix_map, the trie and pattern_map are, as functions, the ones computed from the current records; the Lean checker evaluates the same statement on the dictionaries the implementation exposes). Correspondence replays histories with planted overlaps "
          "and observes records, all five lookup structures and a probe set after every operation. Every one-step history over names differing only by case (3 072 quick / 28 812 thorough) is enumerated completely on every run.",
@@ -140,7 +140,8 @@ CHECKS = {
     text="Proof: C15_roundtrip (print then from_curie is the identity for every separator-free prefix and every identifier, "
          "split at the first separator), C15_reject, C15_eq_pair / C15_eq_equiv / C15_eq_tuple (== is an equivalence on the "
          "pydantic classes depending only on the pair; a tuple equals only tuples), C15_hash, C15_lt_irrefl / _trans / "
-         "_trichotomy (strict lexicographic total order on the pair), C15_ctx (converter as validation context), C15_triples_bytes "
+         "_trichotomy (strict lexicographic total order on the pair), C15_ctx (converter as validation context), C15_from_reference (converting an existing reference = parsing its printed CURIE, "
+         "whatever class the argument has), C15_triples_bytes "
          "(read_triples of the text write_triples writes gives back the same triples, for all identifiers incl. tabs, quotes, "
          "newlines: through the csv model). JSON round trip, frozen instances, pickling / copying and .tsv.gz are exercised on "
          "every case, not modelled; the text of every triples file is compared character for character with the model.",
@@ -166,7 +167,9 @@ CHECKS = {
     text="Proof: C18_answers (answers = valid renderings of u under the record owning its longest registered URI prefix; "
          "nothing for unrecognised URIs), C18_answers_expand_all (= expand_all(compress(u)) filtered), C18_unconfigured, "
          "C18_header_supported / _absent / _max (the negotiated type is a supported type whose q is maximal among the supported "
-         "ones listed, or the default), for every validity predicate and every media-type table. SPARQL evaluation, VALUES "
+         "ones listed, or the default), for every validity predicate and every media-type table; C18_header_text (the header as text - split on ',' and ';', optional "
+         "whitespace stripped, the q parameter found by name and read - is parsed into exactly the parts its pieces denote, so the "
+         "negotiation theorems apply to the text; Model/Header.lean, compared with handle_header on every generated header). SPARQL evaluation, VALUES "
          "placement and the HTTP transports (Flask GET/POST, FastAPI GET) are exercised on every case; FastAPI POST cannot run "
          "in this sandbox (python-multipart missing).",
     design="§7 C18", technique="Lean 4 theorem (answer set via T0, maximal-q negotiation over a stable sort) + correspondence through rdflib SPARQL and both web frameworks"),
